@@ -247,8 +247,23 @@ func f64(f Flt) float64 {
 		return math.Inf(1)
 	case "ninf":
 		return math.Inf(-1)
+	case "pbig": // the greatest finite magnitude (of a double; f32 gives the float one)
+		return math.MaxFloat64
+	case "nbig":
+		return -math.MaxFloat64
 	}
 	panic("bad float kind " + f.K)
+}
+
+// f32 is the value for a float (32 bit) field.
+func f32(f Flt) float32 {
+	switch f.K {
+	case "pbig":
+		return math.MaxFloat32
+	case "nbig":
+		return -math.MaxFloat32
+	}
+	return float32(f64(f))
 }
 
 func str(k int) string {
@@ -308,19 +323,19 @@ func (e embed) conc(a Msg) proto.Message {
 	case "A":
 		m = &types.AudioLevelChange{Name: str(a.S), ChangeTime: e.ts(a.Act)}
 	case "S":
-		s := &traits.ElectricMode_Segment{Magnitude: float32(f64(a.Fl))}
+		s := &traits.ElectricMode_Segment{Magnitude: f32((a.Fl))}
 		if a.Of.Has {
-			s.Shape = &traits.ElectricMode_Segment_Fixed{Fixed: float32(f64(a.Of.V))}
+			s.Shape = &traits.ElectricMode_Segment_Fixed{Fixed: f32((a.Of.V))}
 		}
 		m = s
 	case "T":
 		t := &testproto.TestAllTypes{}
 		t.DefaultInt32 = int32(a.I)
 		t.DefaultString = str(a.S)
-		t.DefaultFloat = float32(f64(a.Fl))
+		t.DefaultFloat = f32((a.Fl))
 		t.DefaultDouble = f64(a.Db)
 		if a.Of.Has {
-			v := float32(f64(a.Of.V))
+			v := f32((a.Of.V))
 			t.OptionalFloat = &v
 		}
 		for _, v := range a.Rd {
@@ -329,10 +344,10 @@ func (e embed) conc(a Msg) proto.Message {
 		if a.Mf.K1.Has || a.Mf.K2.Has {
 			t.MapInt32Float = map[int32]float32{}
 			if a.Mf.K1.Has {
-				t.MapInt32Float[1] = float32(f64(a.Mf.K1.V))
+				t.MapInt32Float[1] = f32((a.Mf.K1.V))
 			}
 			if a.Mf.K2.Has {
-				t.MapInt32Float[2] = float32(f64(a.Mf.K2.V))
+				t.MapInt32Float[2] = f32((a.Mf.K2.V))
 			}
 		}
 		if a.Wk.P {
@@ -345,7 +360,7 @@ func (e embed) conc(a Msg) proto.Message {
 			t.MapStringWellKnown = map[string]*testproto.WellKnown{"k": e.wk(a.Mw)}
 		}
 		if a.Nn.P {
-			inner := &testproto.TestAllTypes{DefaultFloat: float32(f64(a.Nn.Fl))}
+			inner := &testproto.TestAllTypes{DefaultFloat: f32((a.Nn.Fl))}
 			if a.Nn.Ts.Has {
 				inner.DefaultWellKnown = &testproto.WellKnown{DefaultTimestamp: e.ts(a.Nn.Ts)}
 			}
